@@ -36,7 +36,7 @@ VARIABLES t,        \* the tree
 vars == <<t, bag, last>>
 
 Null == 0
-EmptyTree == [nodes |-> [i \in {} |-> 0], root |-> Null, head |-> Null, tail |-> Null, leaves |-> 0, inner |-> 0, size |-> 0, how |-> {}]
+EmptyTree == [nodes |-> <<>>, root |-> Null, head |-> Null, tail |-> Null, leaves |-> 0, inner |-> 0, size |-> 0, how |-> {}]
 
 (* ---- node access ---- *)
 N(tr, id) == tr.nodes[id]
@@ -44,10 +44,14 @@ Use(tr, id) == Len(tr.nodes[id].keys)
 IsLeaf(tr, id) == tr.nodes[id].level = 0
 Key(tr, id, s) == tr.nodes[id].keys[s + 1]
 Kid(tr, id, s) == tr.nodes[id].kids[s + 1]
-SetNode(tr, id, nd) == [tr EXCEPT !.nodes = [i \in DOMAIN tr.nodes \cup {id} |-> IF i = id THEN nd ELSE tr.nodes[i]]]
+\* (:> and @@ build explicit function values; TLC cannot write lazily built ones to its disk queue)
+SetNode(tr, id, nd) == [tr EXCEPT !.nodes = (id :> nd) @@ tr.nodes]
+\* a released node stays in the map as a tombstone (level -1); Live are the others
+Dead == [level |-> -1, keys |-> <<>>, kids |-> <<>>, prev |-> 0, next |-> 0]
+LiveOf(tr) == {i \in DOMAIN tr.nodes : tr.nodes[i].level >= 0}
 SetKeys(tr, id, ks) == SetNode(tr, id, [N(tr, id) EXCEPT !.keys = ks])
 SetKey(tr, id, s, k) == SetNode(tr, id, [N(tr, id) EXCEPT !.keys[s + 1] = k])
-Drop(tr, id) == [tr EXCEPT !.nodes = [i \in DOMAIN tr.nodes \ {id} |-> tr.nodes[i]]]
+Drop(tr, id) == SetNode(tr, id, Dead)
 
 IsFull(tr, id) == Use(tr, id) = (IF IsLeaf(tr, id) THEN LeafMax ELSE InnerMax)
 IsFew(tr, id) == Use(tr, id) <= (IF IsLeaf(tr, id) THEN LeafMin ELSE InnerMin)
@@ -64,7 +68,7 @@ Tag(tr, s) == [tr EXCEPT !.how = @ \cup {s}]
 
 (* ---- allocation ---- *)
 \* the allocator hands out the smallest unused id (keeps the model finite; Canon below abstracts from ids altogether)
-Fresh(tr) == CHOOSE i \in 1 .. Cardinality(DOMAIN tr.nodes) + 1 : i \notin DOMAIN tr.nodes /\ \A j \in 1 .. i - 1 : j \in DOMAIN tr.nodes
+Fresh(tr) == CHOOSE i \in 1 .. Cardinality(DOMAIN tr.nodes) + 1 : i \notin LiveOf(tr) /\ \A j \in 1 .. i - 1 : j \in LiveOf(tr)
 AllocLeaf(tr) ==
     LET id == Fresh(tr) IN
     [tr |-> [SetNode(tr, id, [level |-> 0, keys |-> <<>>, kids |-> <<>>, prev |-> Null, next |-> Null]) EXCEPT !.leaves = @ + 1], id |-> id]
@@ -231,11 +235,15 @@ Rebalance(myres, curr, left, right, leftp, rightp, parent, parentslot) ==
     ELSE IF leftp = rightp THEN (IF Use(tr0, left) <= Use(tr0, right) THEN T(shiftL, "case4_shift_left") ELSE T(shiftR, "case4_shift_right"))
     ELSE (IF leftp = parent THEN T(shiftR, "case5_shift_right") ELSE T(shiftL, "case5_shift_left"))
 
-RECURSIVE EraseOneDescend(_, _, _, _, _, _, _, _, _)
-EraseOneDescend(tr0, k, curr, left, right, leftp, rightp, parent, parentslot) ==
+\* erase_one_descend (tg = <<0, 0>>: the first entry with key k) and erase_iter_descend (tg = <<leaf, slot>>: exactly that entry;
+\* the code searches the run of equal keys for the leaf, the model goes straight to the child that contains it) share everything else
+RECURSIVE SubtreeOf(_, _)
+SubtreeOf(tr, id) == IF IsLeaf(tr, id) THEN {id} ELSE {id} \cup UNION {SubtreeOf(tr, tr.nodes[id].kids[i]) : i \in 1 .. Len(tr.nodes[id].kids)}
+RECURSIVE EraseOneDescend(_, _, _, _, _, _, _, _, _, _)
+EraseOneDescend(tr0, k, tg, curr, left, right, leftp, rightp, parent, parentslot) ==
     IF IsLeaf(tr0, curr)
-    THEN LET slot == FindLower(N(tr0, curr).keys, k) IN
-         IF slot >= Use(tr0, curr) \/ Key(tr0, curr, slot) # k
+    THEN LET slot == IF tg[1] = Null THEN FindLower(N(tr0, curr).keys, k) ELSE tg[2] IN
+         IF (tg[1] = Null /\ (slot >= Use(tr0, curr) \/ Key(tr0, curr, slot) # k)) \/ (tg[1] # Null /\ tg[1] # curr)
          THEN Res(tr0, FALSE, FALSE, 0, FALSE)
          ELSE LET tr1 == SetKeys(tr0, curr, DelAt(N(tr0, curr).keys, slot))
                   use == Use(tr1, curr)
@@ -252,13 +260,14 @@ EraseOneDescend(tr0, k, curr, left, right, leftp, rightp, parent, parentslot) ==
                       ELSE Rebalance(r1, curr, left, right, leftp, rightp, parent, parentslot)
                  ELSE r1
     ELSE LET inner == curr
-             slot == FindLower(N(tr0, inner).keys, k)
+             slot == IF tg[1] = Null THEN FindLower(N(tr0, inner).keys, k)
+                     ELSE (CHOOSE s \in 0 .. Use(tr0, inner) : tg[1] \in SubtreeOf(tr0, Kid(tr0, inner, s)))
              use0 == Use(tr0, inner)
              myleft == IF slot = 0 THEN (IF left = Null THEN Null ELSE Kid(tr0, left, Use(tr0, left) - 1)) ELSE Kid(tr0, inner, slot - 1)
              myleftp == IF slot = 0 THEN leftp ELSE inner
              myright == IF slot = use0 THEN (IF right = Null THEN Null ELSE Kid(tr0, right, 0)) ELSE Kid(tr0, inner, slot + 1)
              myrightp == IF slot = use0 THEN rightp ELSE inner
-             result == EraseOneDescend(tr0, k, Kid(tr0, inner, slot), myleft, myright, myleftp, myrightp, inner, slot)
+             result == EraseOneDescend(tr0, k, tg, Kid(tr0, inner, slot), myleft, myright, myleftp, myrightp, inner, slot)
          IN IF ~result.found THEN result
             ELSE LET tr1 == result.tr
                      r1 == IF result.upd
@@ -289,9 +298,18 @@ EraseOneDescend(tr0, k, curr, left, right, leftp, rightp, parent, parentslot) ==
 
 \* erase_one -> [tr, found]
 DoEraseOne(tr0, k) ==
-    IF tr0.root = Null THEN [tr |-> tr0, found |-> FALSE]
-    ELSE LET r == EraseOneDescend([tr0 EXCEPT !.how = {}], k, tr0.root, Null, Null, Null, Null, Null, 0)
+    IF tr0.root = Null THEN [tr |-> [tr0 EXCEPT !.how = {}], found |-> FALSE]
+    ELSE LET r == EraseOneDescend([tr0 EXCEPT !.how = {}], k, <<Null, 0>>, tr0.root, Null, Null, Null, Null, Null, 0)
          IN [tr |-> IF r.found THEN [r.tr EXCEPT !.size = @ - 1] ELSE r.tr, found |-> r.found]
+
+\* erase(iterator) of the entry at 0-based position p in container order -> [tr, found, key]
+RECURSIVE LeafAt(_, _, _)
+LeafAt(tr, leaf, p) == IF p < Use(tr, leaf) THEN <<leaf, p>> ELSE LeafAt(tr, N(tr, leaf).next, p - Use(tr, leaf))
+DoEraseIter(tr0, p) ==
+    LET tg == LeafAt(tr0, tr0.head, p)
+        k == Key(tr0, tg[1], tg[2])
+        r == EraseOneDescend([tr0 EXCEPT !.how = {"erase_iter"}], k, tg, tr0.root, Null, Null, Null, Null, Null, 0)
+    IN [tr |-> IF r.found THEN [r.tr EXCEPT !.size = @ - 1] ELSE r.tr, found |-> r.found, key |-> k]
 
 (***************************************************************************)
 (* The state machine                                                       *)
@@ -311,13 +329,20 @@ EraseOne(k) ==
     /\ last' = <<"erase_one", k, r.found, r.tr.how>>
     /\ bag' = IF r.found THEN [bag EXCEPT ![k] = @ - 1] ELSE bag
 
-Next == \E k \in Keys : Insert(k) \/ EraseOne(k)
+EraseIter(p) ==
+    /\ p < t.size
+    /\ LET r == DoEraseIter(t, p) IN
+       /\ t' = r.tr
+       /\ last' = <<"erase_iter", p, r.found, r.tr.how>>
+       /\ bag' = IF r.found THEN [bag EXCEPT ![r.key] = @ - 1] ELSE bag
+
+Next == (\E k \in Keys : Insert(k) \/ EraseOne(k)) \/ (\E p \in 0 .. t.size - 1 : EraseIter(p))
 Spec == Init /\ [][Next]_vars
 
 (***************************************************************************)
 (* Properties: the clauses of C02, and the contents (C01)                  *)
 (***************************************************************************)
-Live == DOMAIN t.nodes
+Live == LiveOf(t)
 RECURSIVE Subtree(_)
 Subtree(id) == IF IsLeaf(t, id) THEN {id} ELSE {id} \cup UNION {Subtree(t.nodes[id].kids[i]) : i \in 1 .. Len(t.nodes[id].kids)}
 Reachable == IF t.root = Null THEN {} ELSE Subtree(t.root)
@@ -355,12 +380,13 @@ Counted == /\ t.leaves = Cardinality({id \in Live : IsLeaf(t, id)}) /\ t.inner =
 \* C01: the tree holds exactly what the std container would, and the calls report what it would report
 Contents == (IF t.root = Null THEN <<>> ELSE InOrder(t.root)) = BagSeq(Keys)
 Results == CASE last[1] = "insert" -> last[3] = TRUE \/ ~Dup
+             [] last[1] = "erase_iter" -> last[3] = TRUE
              [] OTHER -> TRUE
 \* the tree up to the names of its nodes (VIEW): nested <<level, keys, children>> plus both chain walks
 RECURSIVE Canon(_)
 Canon(id) == <<t.nodes[id].level, t.nodes[id].keys, [i \in 1 .. Len(t.nodes[id].kids) |-> Canon(t.nodes[id].kids[i])]>>
 View == <<IF t.root = Null THEN <<>> ELSE Canon(t.root), IF t.root = Null THEN <<>> ELSE <<ChainFwd(t.head), ChainBwd(t.tail)>>,
-          t.leaves, t.inner, t.size, Cardinality(DOMAIN t.nodes), bag, last>>
+          t.leaves, t.inner, t.size, Cardinality(Live), bag, last>>
 \* vacuity guard: printed once per state in the coverage run; the check collects the branch tags
 Note == PrintT(<<"@@GEN@@", ToJson([how |-> last[4], height |-> IF t.root = Null THEN -1 ELSE t.nodes[t.root].level])>>)
 TreeInv == NoDanglingNoLeak /\ WellShaped /\ Balanced /\ Filled /\ Separated /\ Ordered /\ Chained /\ Counted /\ Contents
